@@ -33,11 +33,16 @@ const (
 	keyMoveIn = "C36-sync-move-into-subtree-dropped"
 	// LocalSink.UpdateEntry rewrites the old key and reports it found: a rename event leaves the file at the old path
 	keyLocalRename = "C36-localsink-rename-keeps-old-path"
+	// Replicator.Replicate applies an update of the source directory itself to the sink
+	// directory but passes the source directory's parent as the new parent path
+	keySrcDirParent = "C36-replicate-update-of-source-dir-parent-not-mapped"
 )
 
 func TestMain(m *testing.M) {
 	vlib.Rule("C36: (1) every single event (create / update / delete / rename, file and directory, deleteChunks, from-other-cluster, signatures) over a 13-path universe around source /data with adversarial neighbours (/data2, /dat, /database/x, /other, /data/x/...) x 5 (source,target) pairs x sink kinds (plain, incremental, named 'filer'; UpdateEntry answering found / not found), pushed through command.genProcessFunction (filer.sync, filer.backup) and replication.Replicator.Replicate (filer.replicate) into a recording sink and compared call by call with a reference mapper (inside = strictly below source+'/'; key = target + rest; kind per old/new inside-ness); (2) rapid-generated events over random path segments and random source/target directories; (3) rapid-generated histories of a model file tree (create, update, delete, recursive delete, mkdir -p, rename as the filer emits it = create+delete events, or as a single rename event) replayed through both processors into the real localsink.LocalSink on a scratch directory, final file set compared with the mapped model subtree. Non-trivial = the event (or a history event) touches a path inside the source and a path outside it, or an adversarial sibling, or is a rename, or an update answered 'not found'. Distinct = distinct (config, event) / history.")
 	vlib.Assume("C36: events have the shape Filer.NotifyUpdateEvent produces (Directory = parent of the old, else new, path; NewParentPath = parent of the new path; Replicate's key = that full path). Single events whose old and new path differ (renames) are given to genProcessFunction only: this tree's filer emits create+delete for a rename and Replicate's single key cannot express a move. Source directories have no trailing slash (except '/'). The event for the source directory itself may be applied to the target directory or ignored. Entries carry no chunks and no inline content (data copying is not part of this property). The signature filter inside doSubscribeFilerMetaChanges is bound to a live gRPC stream and is not reached.")
+	vlib.Rule("C36 filer sink / loop clause: rapid-generated model-tree histories replayed through Replicator.Replicate and genProcessFunction into the real filersink.FilerSink talking gRPC to an in-process model filer that logs the events the real handlers log (request flag IsFromOtherCluster and signatures handed to NotifyUpdateEvent). Checked: every create / update / delete request of the sink carries IsFromOtherCluster=true and the event's signatures; every event the target logs, fed to the reverse Replicator (target dir -> source dir, sink named 'filer'), causes no sink call; the target's file set equals the mapped model subtree. Non-trivial = the history made the sink send at least one delete request.")
+	vlib.Assume("C36 filer sink: the target filer copies req.IsFromOtherCluster and req.Signatures of CreateEntry / UpdateEntry / DeleteEntry into the logged event (FilerServer handlers in weed/server/filer_grpc_server.go do; the nested-folder events of a recursive delete are the filer's business and are modelled with the request's flag)")
 	vlib.Main(m)
 }
 
@@ -259,7 +264,7 @@ func expectSync(c setup, e ev, date string) expectation {
 	}
 	cre := func(p string) call { return call{op: "create", key: mapTo(S, T, d, p), entry: nameOf(p), sigs: sg} }
 	if e.old == S || e.new == S {
-		return expectation{boundary: true}
+		return expectation{boundary: true, anyParent: c.incremental}
 	}
 	switch e.kind {
 	case "delete":
@@ -309,7 +314,7 @@ func expectReplicate(c setup, e ev, date string) expectation {
 		p = e.new
 	}
 	if p == S {
-		return expectation{boundary: true}
+		return expectation{boundary: true, anyParent: c.incremental}
 	}
 	if !inside(S, p) {
 		return expectation{}
@@ -337,6 +342,13 @@ func compare(ex expectation, got []call, boundaryKey string) string {
 		for _, g := range got {
 			if g.key != boundaryKey {
 				return fmt.Sprintf("event about the source directory itself produced a call outside the target directory %s", boundaryKey)
+			}
+			if g.op == "update" && !ex.anyParent && g.parent != parentOf(boundaryKey) {
+				if vlib.Known(keySrcDirParent) {
+					vlib.Excluded(keySrcDirParent)
+					continue
+				}
+				return fmt.Sprintf("update of the source directory itself is applied to the target directory %s with new parent %s, want %s", boundaryKey, g.parent, parentOf(boundaryKey))
 			}
 		}
 		return ""
@@ -1013,6 +1025,17 @@ func TestFindingReplicateParentNotMapped(t *testing.T) {
 	rep := len(calls) > 0 && calls[0].op == "update" && calls[0].parent != "/backup/x"
 	vlib.Finding(t, keyParent, rep,
 		fmt.Sprintf("source /data, target /backup, update event for /data/x/g: Replicator.Replicate -> %s ; the sink is told new parent /data/x (a source path) instead of /backup/x (genProcessFunction maps it); FilerSink.UpdateEntry uses it as the target directory of the UpdateEntry request", callsStr(calls)))
+}
+
+func TestFindingReplicateSourceDirUpdate(t *testing.T) {
+	c := setup{S: "/data", T: "/backup/deep", sinkName: "rec", found: true}
+	e := ev{kind: "update", old: "/data", new: "/data", isDir: true, sigs: []int32{7}, mtime: 1600000000}
+	rs := &recSink{name: c.sinkName, dir: c.T, found: true}
+	key, resp := e.message()
+	err := newReplicator(c.S, rs).Replicate(context.Background(), key, resp.EventNotification)
+	rep := err == nil && len(rs.calls) > 0 && rs.calls[0].op == "update" && rs.calls[0].key == "/backup/deep" && rs.calls[0].parent != "/backup"
+	vlib.Finding(t, keySrcDirParent, rep,
+		fmt.Sprintf("source /data, target /backup/deep, update event for the directory /data itself (e.g. chmod): Replicator.Replicate -> %s ; the update is applied to /backup/deep but with new parent / (the source directory's parent) instead of /backup; FilerSink then sends UpdateEntry{Directory:\"/\", Entry.Name:\"deep\"} which fails or hits /deep", callsStr(rs.calls)))
 }
 
 func TestFindingMoveIntoSubtree(t *testing.T) {
